@@ -1,25 +1,55 @@
 package tree
 
+import (
+	"strings"
+
+	sdcpb "github.com/sdcio/sdc-protos/sdcpb"
+)
+
 func getListEntrySortFunc(parent Entry) func(a, b Entry) int {
 	// return the comparison function
 	return func(a, b Entry) int {
 		keys := parent.GetSchemaKeys()
 		var cmpResult int
-		for _, v := range keys {
-			aLvSlice := a.getChildren()[v].GetHighestPrecedence(LeafVariantSlice{}, false)
-			bLvSlice := b.getChildren()[v].GetHighestPrecedence(LeafVariantSlice{}, false)
+		for i, v := range keys {
+			aTv := listEntryKeyValue(a, v)
+			bTv := listEntryKeyValue(b, v)
 
-			aEntry := aLvSlice[0]
-			bEntry := bLvSlice[0]
-
-			aTv, _ := aEntry.Value()
-			bTv, _ := bEntry.Value()
-
-			cmpResult = aTv.Cmp(bTv)
+			if aTv != nil && bTv != nil {
+				cmpResult = aTv.Cmp(bTv)
+			} else {
+				// an entry that does not hold (a value for) its key leaf is ordered by the name of its key level
+				cmpResult = strings.Compare(listEntryKeyLevelName(a, len(keys)-1-i), listEntryKeyLevelName(b, len(keys)-1-i))
+			}
 			if cmpResult != 0 {
 				return cmpResult
 			}
 		}
 		return 0
 	}
+}
+
+// listEntryKeyValue returns the value the list entry holds for the given key leaf, nil if it holds none
+func listEntryKeyValue(e Entry, key string) *sdcpb.TypedValue {
+	child, exists := e.getChildren()[key]
+	if !exists || child == nil {
+		return nil
+	}
+	lvs := child.GetHighestPrecedence(LeafVariantSlice{}, false)
+	if len(lvs) == 0 || lvs[0] == nil {
+		return nil
+	}
+	tv, err := lvs[0].Value()
+	if err != nil {
+		return nil
+	}
+	return tv
+}
+
+// listEntryKeyLevelName returns the name of the key level the given number of levels above the list entry
+func listEntryKeyLevelName(e Entry, levelsUp int) string {
+	for i := 0; i < levelsUp && e.GetParent() != nil; i++ {
+		e = e.GetParent()
+	}
+	return e.PathName()
 }
